@@ -54,10 +54,23 @@ Print Assumptions C15_fail_closed.
 (** ... and the HTTP transport (http.go: Handle, do) maps every failure to a non-accepting outcome *)
 Theorem C15_http_fail_closed : forall zero tr status b,
   tr = TFail \/ status <> 200 \/ b = BReadFail \/ b = BGarbage \/
-  (exists rs un cf, b = BParsed true rs un cf) ->
+  (exists rs un cf, b = BParsed true rs un cf) \/
+  (exists rs, b = BParsed false rs false CFNull) ->
   is_accept (http_outcome zero tr status b) = false.
 Proof. exact http_fail_closed. Qed.
 Print Assumptions C15_http_fail_closed.
+
+(** ... and never hands the manager a nil content, so no reply of an HTTP plugin can make the
+    chain panic (repaired: a `"content": null` reply with unchange=false used to kill frps) *)
+Theorem C15_http_never_nil_content : forall zero tr status b,
+  http_outcome zero tr status b <> AcceptNilContent.
+Proof. exact http_never_nil. Qed.
+Print Assumptions C15_http_never_nil_content.
+
+Theorem C15_chain_of_http_plugins_never_panics : forall (os : list outcome) (c : content),
+  (forall o, In o os -> o <> AcceptNilContent) -> fst (run_chain os c) <> RCrash.
+Proof. exact chain_no_crash. Qed.
+Print Assumptions C15_chain_of_http_plugins_never_panics.
 
 Theorem C15_http_accepts_only_200_parsed_not_rejected : forall zero tr status b,
   is_accept (http_outcome zero tr status b) = true ->
@@ -146,8 +159,14 @@ Example C15_ex_stop_at_first_refusal :
   = (RError, [hx "00"; hx "01"]).
 Proof. reflexivity. Qed.
 
-Example C15_ex_null_content_crashes :
+(* a Go value implementing Plugin that returns a nil content with Unchange=false still panics the
+   manager; the only plugin implementation frps registers (httpPlugin) cannot do that any more *)
+Example C15_ex_nil_content_from_a_go_plugin_crashes :
   run_chain [AcceptNilContent] (hx "00") = (RCrash, [hx "00"]).
+Proof. reflexivity. Qed.
+
+Example C15_ex_http_null_content_refused :
+  http_outcome (hx "00") TOk 200 (BParsed false [] false CFNull) = Malformed.
 Proof. reflexivity. Qed.
 
 Example C15_ex_ir :
